@@ -24,13 +24,22 @@ EXTENDS Integers, Sequences, FiniteSets, TLC
 
 Styles == {"expanded", "compressed"}
 Precisions == {0, 5, 10}
+(* byte-level spellings of the same source, which the entry points could treat differently:   *)
+(* plain | a leading UTF-8 byte order mark | CRLF line ends | no final newline | a trailing   *)
+(* NUL byte | a byte that is not UTF-8 (inside a string) | `@charset "UTF-8";` as first line  *)
+(* | the empty input.  The property quantifies over bytes: whatever an entry point does with  *)
+(* them (accept, reject), the others must do the same.                                         *)
+ByteVariants == {"plain", "bom", "crlf", "nonl", "nul", "bad_utf8", "charset", "empty"}
+(* the variants that leave the stylesheet's content alone (the framing law of compile_value   *)
+(* speaks about the declaration x{y:v} itself)                                                 *)
+ContentPreserving == {"plain", "bom", "crlf", "nonl", "charset"}
 SheetEntries == {"scss", "mem", "fs", "path"}
 AllEntries == SheetEntries \cup {"value"}
 
 VARIABLES inp, outs
 evars == <<inp, outs>>
 
-NoInput == [kind |-> "none", style |-> "expanded", prec |-> 5]
+NoInput == [kind |-> "none", style |-> "expanded", prec |-> 5, bytes |-> "plain"]
 EInit == inp = NoInput /\ outs = <<>>
 
 (* the text a declaration y: v takes in the rule x, per output style *)
@@ -51,6 +60,7 @@ Agreement(i, o) ==
 Put(f, k, v) == [x \in DOMAIN f \cup {k} |-> IF x = k THEN v ELSE f[x]]
 
 Begin(i) == /\ i.style \in Styles /\ i.prec \in Precisions /\ i.kind \in {"prog", "value"}
+            /\ i.bytes \in ByteVariants /\ (i.kind = "value" => i.bytes \in ContentPreserving)
             /\ inp' = i /\ outs' = <<>>
 
 Call(entry, r) == /\ inp.kind # "none"
